@@ -4,9 +4,14 @@ import P2PVerif.Model.Addr
 namespace P2PVerif.Addr
 open P2PVerif
 
-/-- canonical IP text as the standard library prints it -/
+/-- canonical IP text as the standard library prints it: it parses to itself, is non-empty and contains no
+    newline or bracket.
+    (Originally `env.ipParse ip = some ip ∧ '\n' ∉ ip ∧ '[' ∉ ip ∧ ']' ∉ ip`; non-emptiness was added because
+    without it C16.parse_marshal is false for sshswarm, whose regular expression demands a non-empty host `(.+)`:
+    see `Lemmas/AddrCounterexample.lean`. Every text `netip.Addr.String` prints for a parsed address is
+    non-empty.) -/
 def IPOK (env : Env) (ip : Str) : Prop :=
-  env.ipParse ip = some ip ∧ '\n' ∉ ip ∧ '[' ∉ ip ∧ ']' ∉ ip
+  env.ipParse ip = some ip ∧ ip ≠ [] ∧ '\n' ∉ ip ∧ '[' ∉ ip ∧ ']' ∉ ip
 
 structure EnvOK (env : Env) : Prop where
   ip_out : ∀ t ip, env.ipParse t = some ip → IPOK env ip
@@ -32,5 +37,18 @@ def Fits : Gram → Addr → Prop
   | .idAt g, .idAt _ a => Fits g a
   | .mcons name g rest, .scheme s a => (s = name ∧ Fits g a) ∨ (s ≠ name ∧ Fits rest (.scheme s a))
   | _, _ => False
+
+/-- a scheme table: a chain of `mcons` ending in `mnil` -/
+def IsTable : Gram → Prop
+  | .mnil => True
+  | .mcons _ _ rest => IsTable rest
+  | _ => False
+
+/-- well-formed swarm stack: the continuation of every scheme table is a scheme table (the `Gram` type also
+    contains junk such as `mcons name g ssh`, which no multiswarm corresponds to). -/
+def GramOK : Gram → Prop
+  | .idAt g => GramOK g
+  | .mcons _ g rest => GramOK g ∧ IsTable rest ∧ GramOK rest
+  | _ => True
 
 end P2PVerif.Addr
